@@ -80,26 +80,27 @@ type ReplayFile struct {
 
 // WorkerSummary is what one worker reports.
 type WorkerSummary struct {
-	Runs       int              `json:"runs"`
-	SweepRuns  int              `json:"sweep_runs"`
-	SweepTotal int              `json:"sweep_total"`
-	Ops        int              `json:"ops"`
-	Steps      int              `json:"steps"`
-	Switches   int              `json:"switches"`
-	SimTimeNs  int64            `json:"sim_time_ns"`
-	Faults     map[string]int   `json:"faults"`
-	Probes     map[string]int   `json:"probes"`
-	Oracle     map[string]int   `json:"oracle"`
-	Classes    []string         `json:"classes"`
-	Traces     []uint64         `json:"traces"`
-	Pairs      []string         `json:"pairs"`
-	Nontrivial int              `json:"nontrivial"`
-	Infra      int              `json:"infra"`
-	InfraMsgs  []string         `json:"infra_msgs"`
-	Samples    []any            `json:"samples"`
-	Seeds      []uint64         `json:"seeds"`
-	Violations []FoundViolation `json:"violations"`
-	WallS      float64          `json:"wall_s"`
+	Runs          int              `json:"runs"`
+	SweepRuns     int              `json:"sweep_runs"`
+	SweepTotal    int              `json:"sweep_total"`
+	Ops           int              `json:"ops"`
+	Steps         int              `json:"steps"`
+	Switches      int              `json:"switches"`
+	SimTimeNs     int64            `json:"sim_time_ns"`
+	Faults        map[string]int   `json:"faults"`
+	Probes        map[string]int   `json:"probes"`
+	Oracle        map[string]int   `json:"oracle"`
+	Classes       []string         `json:"classes"`
+	Traces        []uint64         `json:"traces"`
+	Pairs         []string         `json:"pairs"`
+	Nontrivial    int              `json:"nontrivial"`
+	Infra         int              `json:"infra"`
+	HarnessPanics int              `json:"harness_panics"`
+	InfraMsgs     []string         `json:"infra_msgs"`
+	Samples       []any            `json:"samples"`
+	Seeds         []uint64         `json:"seeds"`
+	Violations    []FoundViolation `json:"violations"`
+	WallS         float64          `json:"wall_s"`
 }
 
 // FoundViolation is a violation with its replay file.
@@ -253,6 +254,9 @@ func cmdWorker(args []string) int {
 			sum.Samples = append(sum.Samples, out.Stats.Sample)
 		}
 		if out.Infra != nil {
+			if out.Infra.Kind == simrt.FailHarness {
+				sum.HarnessPanics++
+			}
 			sum.Infra++
 			if len(sum.InfraMsgs) < 5 {
 				sum.InfraMsgs = append(sum.InfraMsgs, fmt.Sprintf("run %d seed %d: %s: %s\n%s", i, rs, out.Infra.Kind, out.Infra.Msg, out.Infra.Stack))
@@ -652,6 +656,7 @@ func cmdCheck(args []string) int {
 		agg.SimTimeNs += s.SimTimeNs
 		agg.Nontrivial += s.Nontrivial
 		agg.Infra += s.Infra
+		agg.HarnessPanics += s.HarnessPanics
 		agg.InfraMsgs = append(agg.InfraMsgs, s.InfraMsgs...)
 		for k, v := range s.Faults {
 			agg.Faults[k] += v
@@ -732,7 +737,8 @@ func cmdCheck(args []string) int {
 	}
 	if agg.Infra > 0 {
 		fmt.Fprintf(os.Stderr, "verif: %d run(s) ended in budget/harness trouble (not violations); first:\n%s\n", agg.Infra, strings.Join(first(agg.InfraMsgs, 2), "\n"))
-		if float64(agg.Infra) > 0.02*float64(agg.Runs) && exit == 0 {
+		// a panic of the harness itself is never tolerated; step-budget exhaustion up to 2% of the runs
+		if (agg.HarnessPanics > 0 || float64(agg.Infra) > 0.02*float64(agg.Runs)) && exit == 0 {
 			exit = 2
 		}
 	}
